@@ -1,4 +1,6 @@
--- stub: component `str` not built yet
+import Driver.Str
+open Driver
+
 def main : IO UInt32 := do
-  IO.eprintln "driver-str: not implemented"
-  return 2
+  runComponent Str.init Str.step
+  return 0
